@@ -20,7 +20,7 @@ use crate::{Repository, TargetName};
 use aws_lc_rs::rand::SystemRandom;
 use chrono::{DateTime, Utc};
 use serde_json::Value;
-use snafu::{OptionExt, ResultExt};
+use snafu::{ensure, OptionExt, ResultExt};
 use std::borrow::Cow;
 use std::collections::HashMap;
 use std::convert::TryInto;
@@ -340,6 +340,13 @@ impl TargetsEditor {
         keyids: Vec<Decoded<Hex>>,
         threshold: NonZeroU64,
     ) -> Result<&mut Self> {
+        // A role whose threshold exceeds the number of keys it can be signed with can never be
+        // verified by a client, so do not create one (`RepositoryEditor::new` makes the same
+        // check for the roles in root.json).
+        ensure!(
+            threshold.get() <= keyids.len() as u64,
+            error::InvalidThresholdSnafu
+        );
         self.add_key(key_pairs, None)?;
         self.new_roles
             .get_or_insert(Vec::new())
